@@ -244,15 +244,22 @@ def run(ctx):
     rng = ctx.rng
     nprng = np.random.RandomState(rng.randrange(2 ** 31))
     quick = ctx.tier == "quick"
-    ctx.rule = ("T1: every raw-pointer C routine x shape grid {0,1,2,3,5}^2 + random dims <= 7 "
-                "(N != T included), n_bins 1..4, dyadic data incl. NaN / range ends, every node "
-                "index: real load/store trace vs model trace; T2: public entry points x same grid x "
-                "mismatching shapes / n_bins in {-1,0,1,2,3,32} / node indices outside [0,N) / "
-                "float32, float64, Fortran-order and strided inputs on the ASan+UBSan build: verdict vs "
-                "model; T3: adaptive-neighbourhood kernel on valid and corrupted neighbour tables; "
-                "oracle stream: other dtypes, random float data, RecurrencePlot / VisibilityGraph "
-                "entry points.  distinct = distinct canonical request; non-trivial = at least one "
-                "array access is performed or the call is rejected for a size reason")
+    ctx.rule = ("T1: every raw-pointer C routine x shape grid {0,1,2,3,5}^2 + random dims <= 7 (<= 12 "
+                "thorough; N != T included), n_bins 1..4 (..16 thorough), dyadic data incl. NaN / range "
+                "ends under exact power-of-two rescalings 2^-40..2^60 with offsets, every node index: real "
+                "load/store trace vs model trace; T2: public entry points x same grid x mismatching shapes "
+                "/ n_bins in {-2^40,-1,0,1,2,3,5,32,64,2^31,2^40} / node indices outside [0,N) / float32, "
+                "float64, Fortran-order and strided inputs / rescaled, constant, NaN, near-one data / "
+                "ResNetwork histories (adjacency reassigned with a larger, smaller, equal number of nodes, "
+                "with or without update_resistances) / non-default n_bins of the climate routine, on the "
+                "ASan+UBSan build: verdict vs model; T3: adaptive-neighbourhood kernel on valid, permuted, "
+                "repeated, prefilled, degenerate and corrupted tables, n_time smaller / larger than the "
+                "matrix, with the model's well-formedness test against an independent evaluation; oracle "
+                "stream: other dtypes, random / +-inf / NaN / overflowing / subnormal-range float data in "
+                "both widths, n_bins up to 4096, RecurrencePlot / VisibilityGraph entry points, histories on "
+                "one Surrogates / RecurrencePlot object with library-held arrays.  distinct = distinct "
+                "canonical request; non-trivial = at least one array access is performed or the call is "
+                "rejected for a size reason")
     ctx.trusted = common.DEFAULT_TRUSTED + [
         "clang 14 sanitizer-coverage load/store callbacks and ASan/UBSan report every access / "
         "undefined operation of the compiled C code on the inputs run (T1 at -O0, T2 at -O1)",
@@ -260,8 +267,11 @@ def run(ctx):
         "and NumPy's allocation sizes",
     ]
     ctx.assumptions = [
-        "int / long index arithmetic does not overflow: element counts of every array < 2^31 "
-        "(the model computes indices in unbounded integers)",
+        "element counts of every array < 2^31 (under this hypothesis the *_sites_fit theorems prove "
+        "that no int index expression of the translated C text overflows; the pointer walks with "
+        "running offsets are computed in unbounded integers in the model)",
+        "the binary64 product of a value < 1 with n_bins < 2^31 rounds below n_bins (hypothesis of "
+        "symbolRnd_in_range_partial; driven by the near-one inputs)",
         "alloca(4*8*tmax) in _spearman_corr does not exhaust the stack (not modelled)",
     ]
     ctx.proofs()
@@ -465,14 +475,18 @@ def run(ctx):
         if w:
             M *= nprng.randint(1, 5, size=(n, n))
         return M + M.T
-    for _ in range(10 if quick else 40):
+    plan = [(3, 6, False, "v"), (3, 6, False, "e"), (5, 2, False, "v"), (5, 2, False, "e"),
+            (4, 4, False, "v"), (2, 5, True, "e"), (2, 5, True, "v")]
+    for h in range(12 if quick else 48):
         N0, N1 = rng.choice([2, 3, 4, 5, 7]), rng.choice([2, 3, 4, 6, 9, 12])
         refresh = rng.random() < 0.3
+        mode = rng.choice(["v", "v", "e"])
+        if h < len(plan):
+            N0, N1, refresh, mode = plan[h]
         arrs = [A(sym(N0, w=True), "float64"), A(sym(N1), "int64")]
         if refresh:
             arrs.append(A(sym(N1, 1.0, w=True), "float64"))
         held = N1 if refresh else N0
-        mode = rng.choice(["v", "v", "e"])
         i = rng.randrange(N1)
         cls = "history:adjacency-" + ("same-N" if N0 == N1 else "larger" if N1 > N0 else "smaller") \
             + (":refreshed" if refresh else "")
@@ -579,11 +593,7 @@ def run(ctx):
                      ("oob" if r["reports"] or o == "crash" else
                       (o[3:] if o.startswith("ok:") else o)))
         ctx.count("adaptive-tables:" + ("well-formed" if valid else "other"))
-        if valid and o.startswith("raise:"):
-            # adaptive_valid_ok: well-formed tables never present an index outside a buffer
-            ctx.fail({"kind": "adaptive-kernel", "class": "raises-on-well-formed-tables"},
-                     f"_set_adaptive_neighborhood_size raised {o[6:]} on well-formed tables",
-                     {"request": q, "outcome": o})
+
     ctx.correspond("_set_adaptive_neighborhood_size outcome == Lean while-kernel model",
                    kmodel, kimpl)
     for v in kimpl:
